@@ -454,6 +454,91 @@ def main(ctx):
                  {'stream': 'ops_list', 'sites': case['sites'], 'case': t, 'impl': x})
     ctx.cov['traces_validated_against_impl'] = len(coq_cases)
 
+    # ------------------------------------------------------------------ expectation_value windows vs Model/Window.v (T08_window)
+    wincases = []
+    for _ in range(ctx.pick(12, 60) * boost):
+        L = rng.randint(1, 5)
+        inf = rng.random() < 0.7
+        qs = []
+        for _ in range(12):
+            n = rng.randint(1, 3)
+            qs.append([rng.randint(-3 * L, 4 * L) if inf else rng.randint(0, L + 1), n])
+        wincases.append({'L': L, 'bc': 'infinite' if inf else 'finite', 'nops': rng.randint(1, 4), 'queries': qs})
+    winres = run_chunks(ctx, 'window', wincases)
+    win_coq, win_src = [], []
+    for case, rr in zip(wincases, winres):
+        if rr is None:
+            continue
+        if isinstance(rr, dict):
+            ctx.fail('correspondence', 'window runner failed: ' + rr.get('runner_error', '')[-400:], {'stream': 'window', 'case': case})
+            continue
+        for (s0, n), x in zip(case['queries'], rr):
+            if 'error' in x:
+                ctx.fail('correspondence', 'window runner: ' + x['error'], {'stream': 'window', 'case': case, 'query': [s0, n]})
+                continue
+            obs = None if 'ValueError' in x else Some((x['idx'], x['cell'], [tuple(p) for p in x['reads']]))
+            if obs is not None:
+                # product state up/down/up/.. in every unit cell, operator Sz x .. x Sz: documented value prod_k <Sz>_{(s+k) mod L}
+                want = 1.0
+                for k_ in range(n):
+                    want *= 0.5 if ((s0 + k_) % case['L']) % 2 == 0 else -0.5
+                got = complex(x['val'][0][0], x['val'][0][1])
+                if abs(got - want) > 1e-12:
+                    ctx.fail('oracle', 'expectation_value(sites=[%d]) of a %d-site Sz product on the up/down product state (L=%d, %s): %s, expected %s'
+                             % (s0, n, case['L'], case['bc'], got, want), {'stream': 'window', 'case': case, 'query': [s0, n]},
+                             match_key='C08:expectation_value:window')
+            ctx.count('window', [case['L'], case['bc'], case['nops'], s0, n], nontrivial=obs is not None and (s0 < 0 or s0 + n > case['L']))
+            win_coq.append(coq_lit((case['bc'] != 'infinite', case['L'], case['nops'], s0, common.Nat(n), obs)))
+            win_src.append((case, [s0, n], x))
+    if win_coq:
+        bad, err = common.coq_failing_indices('cases_c08_win', ['Base.Prelude', 'Model.MpsIndex', 'Model.Window'], 'check_window_case', win_coq)
+        if err:
+            ctx.fail('correspondence', 'model evaluation failed (window): ' + err[-600:], None)
+        for b in bad[:5]:
+            case, q, x = win_src[b]
+            ctx.fail('correspondence', 'Model/Window.v ev_site and expectation_value(sites=[%d]) with a %d-site operator disagree: impl %s'
+                     % (q[0], q[1], x), {'stream': 'window', 'case': case, 'query': q, 'impl': x})
+    ctx.cov['window_cases_validated_against_impl'] = len(win_coq)
+
+    # ------------------------------------------------------------------ sample_measurements operator selection vs Model/Sample.v (T08_sample_ops)
+    socases = []
+    for _ in range(ctx.pick(10, 50) * boost):
+        L = rng.randint(1, 5)
+        inf = rng.random() < 0.4
+        qs = []
+        for _ in range(10):
+            first = rng.randint(-2 * L, 2 * L) if inf else rng.randint(0, L - 1)
+            last = first + rng.randint(0, 2 * L) if inf else rng.randint(first, L - 1)
+            names = rng.sample(['Sz', 'Sx', 'Sy', 'Sigmaz', 'Sigmax', 'Sigmay', 'Id'], rng.randint(1, 5))
+            qs.append({'first': first, 'last': last, 'ops': names, 'seed': rng.randrange(10 ** 6), 'complex_amplitude': rng.random() < 0.5})
+        socases.append({'L': L, 'bc': 'infinite' if inf else 'finite', 'queries': qs})
+    sores = run_chunks(ctx, 'sample_ops', socases)
+    so_coq, so_src = [], []
+    for case, rr in zip(socases, sores):
+        if rr is None:
+            continue
+        if isinstance(rr, dict):
+            ctx.fail('correspondence', 'sample_ops runner failed: ' + rr.get('runner_error', '')[-400:], {'stream': 'sample_ops', 'case': case})
+            continue
+        for q, x in zip(case['queries'], rr):
+            if 'ValueError' in x:
+                ctx.fail('oracle', 'sample_measurements(%d, %d, ops=%s) raised %s' % (q['first'], q['last'], q['ops'], x['ValueError']),
+                         {'stream': 'sample_ops', 'case': case, 'query': q}, match_key='C08:sample_measurements:raises')
+                continue
+            ctx.count('sample_ops', [case['L'], case['bc'], q['first'], q['last'], len(q['ops'])],
+                      nontrivial=len(q['ops']) > 1 and q['last'] > q['first'])
+            so_coq.append(coq_lit((q['first'], q['last'], len(q['ops']), case['L'], [tuple(p) for p in x['rec']])))
+            so_src.append((case, q, x))
+    if so_coq:
+        bad, err = common.coq_failing_indices('cases_c08_sops', ['Base.Prelude', 'Model.Sample'], 'check_sample_ops_case', so_coq)
+        if err:
+            ctx.fail('correspondence', 'model evaluation failed (sample_ops): ' + err[-600:], None)
+        for b in bad[:5]:
+            case, q, x = so_src[b]
+            ctx.fail('correspondence', 'Model/Sample.v sample_op_indices and sample_measurements(%d, %d, ops of length %d) disagree: impl (site, index) %s'
+                     % (q['first'], q['last'], len(q['ops']), x['rec']), {'stream': 'sample_ops', 'case': case, 'query': q, 'impl': x})
+    ctx.cov['sample_ops_cases_validated_against_impl'] = len(so_coq)
+
     # ------------------------------------------------------------------ correlation_function words of Model/Corr.v -> dense
     wcases = []
     for _ in range(ctx.pick(120, 1200) * boost):
